@@ -52,7 +52,7 @@ for p in props:
         text, note = claims[pid]
         checks.append({"property_id": pid, "quick_cmd": f"./check {pid} --tier quick", "thorough_cmd": f"./check {pid} --tier thorough",
           "evidence_file": f"/verif/evidence/{pid}.json", "replay_cmd_template": f"./check {pid} --replay {{path}}", "engine": "govc",
-          "level_claimed": {"category": "proof", "text": text, "design_ref": "DESIGN.md section 11 and 15"},
+          "level_claimed": {"category": "proof", "text": text, "design_ref": "DESIGN.md sections 1 and 10"},
           "level_note": note + "; termination not proved; unknown calls are havocked; assumed contracts are listed per run in trusted_base",
           "technique": TECH})
     else:
